@@ -405,6 +405,17 @@ class World:
             except Exception:  # noqa
                 pass
         self.records, self.star_import, self.imports = static
+        # what the names bound by the module's import statements stand for: {"it": "itertools", "accumulate": "itertools.accumulate", ...}
+        self.alias = {}
+        for st_ in self.mod.tree.body:
+            if isinstance(st_, ast.Import):
+                for al in st_.names:
+                    if al.asname:
+                        self.alias[al.asname] = al.name
+            elif isinstance(st_, ast.ImportFrom) and st_.module and not st_.level:
+                for al in st_.names:
+                    if al.name != "*":
+                        self.alias[al.asname or al.name] = st_.module + "." + al.name
         self.class_consts = {}
         for c in reversed(chain):
             cdef = self.mod.classes.get(c)
@@ -769,6 +780,8 @@ class OP4Eval(AutoEvaluator):
         n = sym_name(v)
         if n in ("True", "False", "None"):
             return n == "True"
+        if n is not None and "." in n and n in self.W.table and n not in self.env:
+            return True          # a function / bound method of the module (kept as a symbol because it is not followed): an object without __bool__
         if self.W.value_oracle is not None:
             r = self.W.value_oracle(v, self)
             if r is not None:
@@ -951,6 +964,8 @@ class OP4Eval(AutoEvaluator):
             if is_unknown(body):
                 return body
             return a.prefix + body + a.suffix
+        if isinstance(op, ast.BitOr) and isinstance(a, DictValue) and isinstance(b, DictValue):
+            return DictValue({**a.d, **b.d})
         if isinstance(op, ast.Add):
             if isinstance(a, PosV) and const_int(b) is not None:
                 return a.shifted(const_int(b))
@@ -1147,6 +1162,18 @@ class OP4Eval(AutoEvaluator):
             return self.binop_values(node.op, a, b, node)
         if t is ast.BoolOp:
             vs = [self._ev(x) for x in node.values]
+            if not any(is_unknown(v) for v in vs) and not all(is_rat(v) and self.is_boolean(v) for v in vs):
+                # `a or b` / `a and b` hand on one of their operands (a callable, a table, a text), not a bool: the first operand whose truth
+                # settles the result, when the truth of every operand before it is decided
+                is_or = isinstance(node.op, ast.Or)
+                for v in vs[:-1]:
+                    r = self.truth(v)
+                    if r is None:
+                        break
+                    if r == is_or:
+                        return v
+                else:
+                    return vs[-1]
             out = []
             for v in vs:
                 if is_rat(v):
@@ -1193,10 +1220,27 @@ class OP4Eval(AutoEvaluator):
                                  for k in node.keys):
             # constant keys (tuples of constants included)
             return DictValue({(k.value if isinstance(k, ast.Constant) else tuple(x.value for x in k.elts)): self.ev(v) for k, v in zip(node.keys, node.values)})
+        if t is ast.Dict and any(k is None for k in node.keys):
+            # {..., **other}: entries in order, later ones win
+            d = {}
+            for k, v in zip(node.keys, node.values):
+                if k is None:
+                    x = self.ev(v)
+                    if not isinstance(x, DictValue):
+                        return x if is_unknown(x) else Unknown("** of a value that is not a literal dictionary")
+                    d.update(x.d)
+                else:
+                    kk = self.key_of(self.ev(k))
+                    if kk is ... or kk is None:
+                        return Unknown("dictionary key that is not a constant")
+                    d[kk] = self.ev(v)
+            return DictValue(d)
         if t is ast.Slice:
             return SliceV(*[None if p is None else self._ev(p) for p in (node.lower, node.upper, node.step)])
         if t in (ast.ListComp, ast.GeneratorExp):
             return self.comprehension(node)
+        if t is ast.DictComp:
+            return self.dict_comprehension(node)
         if t is ast.Lambda:
             fdef = ast.FunctionDef(name="<lambda>", args=node.args, body=[ast.Return(value=node.body)], decorator_list=[], returns=None, type_comment=None)
             ast.copy_location(fdef, node)
@@ -1238,6 +1282,61 @@ class OP4Eval(AutoEvaluator):
             return cls + d[3:]
         return d
 
+    @staticmethod
+    def key_of(v):
+        """the Python constant a value is when used as a dictionary key (str / int / bool / None / tuples of them), else the marker `...`"""
+        if isinstance(v, tuple):
+            ks = tuple(OP4Eval.key_of(x) for x in v)
+            return ... if any(k is ... for k in ks) else ks
+        if isinstance(v, Txt):
+            c = v.concrete()
+            return c if c is not None else ...
+        if not is_rat(v):
+            return ...
+        sc = strconst(v)
+        if sc is not None:
+            return sc
+        if sym_name(v) in ("True", "False"):
+            return sym_name(v) == "True"
+        if sym_name(v) == "None":
+            return None
+        k = const_int(v)
+        return k if k is not None else ...
+
+    def dict_of_pairs(self, pairs):
+        """((key, value), ...) with constant keys -> DictValue (later pairs win, as in dict()), else None"""
+        d = {}
+        for pr in pairs:
+            if not isinstance(pr, tuple) or len(pr) != 2:
+                return None
+            k = self.key_of(pr[0])
+            if k is ... or k is None:
+                return None
+            d[k] = pr[1]
+        return DictValue(d)
+
+    @staticmethod
+    def const_range(v):
+        """range(a[, b[, c]]) with constant arguments and at most 64 elements -> the tuple of its elements, else None"""
+        u = unfn(v) if is_rat(v) else None
+        if u is None or u[0] != "call:range" or not 1 <= len(u[1]) <= 3:
+            return None
+        ks = [const_int(x) if is_rat(x) else None for x in u[1]]
+        if any(k is None for k in ks) or (len(ks) == 3 and ks[2] == 0):
+            return None
+        r = range(*ks)
+        return tuple(F.const(k) for k in r) if len(r) <= 64 else None
+
+    def dict_comprehension(self, node):
+        """{k: v for target in table}: over a literal table with constant keys -> DictValue"""
+        if len(node.generators) != 1 or node.generators[0].is_async:
+            return Unknown("dictionary comprehension with several generators")
+        pairs = self.comprehension(ast.ListComp(elt=ast.Tuple(elts=[node.key, node.value], ctx=ast.Load()), generators=node.generators))
+        if is_unknown(pairs):
+            return pairs
+        dv = self.dict_of_pairs(pairs) if isinstance(pairs, tuple) else None
+        return dv if dv is not None else Unknown("dictionary comprehension whose keys are not constants")
+
     def comprehension(self, node):
         """[elt for target in iterable]: a tuple when the iterable is one (literal table), else one generic element (SeqV)"""
         if len(node.generators) != 1 or node.generators[0].is_async:
@@ -1246,6 +1345,8 @@ class OP4Eval(AutoEvaluator):
         itv = self.ev(g.iter)
         if is_unknown(itv):
             return itv
+        if self.const_range(itv) is not None:
+            itv = self.const_range(itv)          # a range with constant bounds: its elements one by one
         names = [x.id for x in ast.walk(g.target) if isinstance(x, ast.Name)]
         saved = {k: self.env[k] for k in names if k in self.env}
         try:
@@ -1979,6 +2080,13 @@ class OP4Eval(AutoEvaluator):
                 return NONE
             if method == "sort":
                 return NONE
+            if method in ("index", "count") and len(pos) == 1 and not kw:
+                ks, k0 = [self.key_of(x) for x in recv], self.key_of(pos[0])
+                if k0 is not ... and all(k is not ... for k in ks):
+                    if method == "count":
+                        return F.const(sum(1 for k in ks if k == k0 and type(k) is type(k0)))
+                    hits = [i for i, k in enumerate(ks) if k == k0]
+                    return F.const(hits[0]) if hits else Unknown("index() of a value the table does not hold (ValueError)")
             return Unknown(f"method {method} of a tuple")
         if isinstance(recv, PackV) and method == "join" and len(pos) == 1 and isinstance(pos[0], tuple) and not recv.items:
             if all(isinstance(x, PackV) for x in pos[0]):
@@ -2085,6 +2193,19 @@ class OP4Eval(AutoEvaluator):
                 return Unknown(f"{method} argument")
             r = t.startswith(a) if method == "startswith" else t.endswith(a)
             return boolv(r) if r is not None else Unknown(f"{method}({a!r}) of {t!r}")
+        if method in ("removeprefix", "removesuffix") and len(pos) == 1 and not kw:
+            # the text without the given head / tail when it has it, unchanged when it provably has not
+            a = sarg(0)
+            if a is None:
+                return Unknown(f"{method} argument")
+            if c is not None:
+                return Txt([Lit(getattr(c, method)(a))]) if hasattr(c, method) else Unknown(method)
+            r = t.startswith(a) if method == "removeprefix" else t.endswith(a)
+            if r is None:
+                return Unknown(f"{method}({a!r}) of {t!r}")
+            if not r or not a:
+                return t
+            return t.slice(len(a), None) if method == "removeprefix" else t.slice(None, -len(a))
         if method in ("find", "index") and len(pos) == 1:
             a = sarg(0)
             if a is None:
@@ -2154,11 +2275,65 @@ class OP4Eval(AutoEvaluator):
             return Unknown(method)
         return NotImplemented
 
+    LIB_SHORT = (("numpy", "np"), ("scipy.sparse", "sp"))
+
+    def lib_name(self, name):
+        """the dotted name of a library function whatever the module calls the library: `it.accumulate` / `accumulate` (from itertools import
+        accumulate) -> itertools.accumulate; numpy.x -> np.x, scipy.sparse.x -> sp.x (the spellings the rules use)"""
+        W = self.W
+        root = name.split(".")[0]
+        if root in self.env or root in W.pinned or root in W.table or (root in self.locals and root not in (import_names(self.fn) if self.fn is not None else ())):
+            return name
+        al = dict(W.alias)
+        if self.fn is not None and root in import_names(self.fn):
+            for x in ast.walk(self.fn):
+                if isinstance(x, ast.Import):
+                    al.update({a.asname: a.name for a in x.names if a.asname})
+                elif isinstance(x, ast.ImportFrom) and x.module and not x.level:
+                    al.update({(a.asname or a.name): x.module + "." + a.name for a in x.names if a.name != "*"})
+        full = al.get(root)
+        if full is not None:
+            name = full + name[len(root):]
+        for long, short in self.LIB_SHORT:
+            if name == long or name.startswith(long + "."):
+                name = short + name[len(long):]
+        return name
+
     def builtin_call(self, name, pos, kw, node):
         W = self.W
         if any(is_bad(x) for x in pos):
             return next(x for x in pos if is_bad(x))
         n = len(pos)
+        name = self.lib_name(name)
+        if name == "itertools.accumulate" and 1 <= n <= 2 and isinstance(pos[0], tuple) and set(kw) <= {"func", "initial"} and not (n == 2 and "func" in kw):
+            # running totals of a table: (x0, x0 + x1, ...), with `initial` put in front
+            func = pos[1] if n == 2 else kw.get("func")
+            if func is not None and is_rat(func) and sym_name(func) == "None":
+                func = None
+            acc = kw.get("initial")
+            if acc is not None and is_rat(acc) and sym_name(acc) == "None":
+                acc = None
+            out = [] if acc is None else [acc]
+            for x in pos[0]:
+                acc = x if acc is None else (self.binop_values(ast.Add(), acc, x, node) if func is None else self.call_value(func, [acc, x], {}, node))
+                out.append(acc)
+            return tuple(out)
+        if name == "itertools.repeat" and n == 2 and not kw and is_rat(pos[1]) and const_int(pos[1]) is not None and 0 <= const_int(pos[1]) <= 64:
+            return (pos[0],) * const_int(pos[1])
+        if name in ("itertools.chain",) and not kw and all(isinstance(x, tuple) for x in pos):
+            return tuple(y for x in pos for y in x)
+        if name == "itertools.chain.from_iterable" and n == 1 and not kw and isinstance(pos[0], tuple) and all(isinstance(x, tuple) for x in pos[0]):
+            return tuple(y for x in pos[0] for y in x)
+        if name == "itertools.pairwise" and n == 1 and not kw and isinstance(pos[0], tuple):
+            return tuple(zip(pos[0][:-1], pos[0][1:]))
+        if name == "next" and 1 <= n <= 2 and not kw and isinstance(pos[0], tuple) and isinstance(node, ast.Call) and node.args and \
+                (isinstance(node.args[0], ast.GeneratorExp) or (isinstance(node.args[0], ast.Call) and dotted(node.args[0].func) in ("map", "zip", "filter", "reversed", "enumerate"))):
+            # next() of an iterator made on the spot (nothing else can have advanced it): its first element, or the default when it is empty
+            if pos[0]:
+                return pos[0][0]
+            if n == 2:
+                return pos[1]
+            return Unknown("next() of an empty iterator without a default (StopIteration)")
         if name == "slice" and 1 <= n <= 3:
             vals = [None if (is_rat(x) and sym_name(x) == "None") else x for x in pos]
             if n == 1:
@@ -2288,8 +2463,31 @@ class OP4Eval(AutoEvaluator):
             return DictValue(dict(kw))
         if name == "dict" and n == 0 and "**" not in kw:
             return DictValue(dict(kw))
-        if name == "dict" and n == 1 and not kw and isinstance(pos[0], DictValue):
-            return DictValue(dict(pos[0].d))
+        if name == "dict" and n == 1 and isinstance(pos[0], DictValue) and "**" not in kw:
+            return DictValue({**pos[0].d, **kw})
+        if name == "dict" and n == 1 and isinstance(pos[0], tuple) and "**" not in kw:
+            dv = self.dict_of_pairs(pos[0])          # dict(pairs) / dict(zip(keys, values)) with constant keys
+            if dv is not None:
+                dv.d.update(kw)
+                return dv
+        if name in ("tuple", "list") and n == 1 and not kw and isinstance(pos[0], DictValue):
+            return self.method_call(pos[0], "keys", [], {}, node)          # iterating a dictionary gives its keys
+        if name in ("tuple", "list") and n == 1 and not kw and self.const_range(pos[0]) is not None:
+            return self.const_range(pos[0])
+        if name in ("max", "min") and n == 1 and not kw and isinstance(pos[0], tuple) and len(pos[0]) >= 2 and all(is_rat(x) for x in pos[0]):
+            return self.builtin_call(name, list(pos[0]), {}, node)
+        if name == "sorted" and n == 1 and not kw and isinstance(pos[0], tuple) and all(is_rat(x) and x.is_const() for x in pos[0]):
+            return tuple(sorted(pos[0], key=lambda x: x.const_value()))
+        if name in ("any", "all") and n == 1 and not kw and isinstance(pos[0], tuple):
+            rs = [self.truth(x) for x in pos[0]]
+            hit = name == "any"
+            if any(r is hit for r in rs):
+                return boolv(hit)
+            if all(r is not None for r in rs):
+                return boolv(not hit)
+            # not decided: left as an opaque application of the values (below)
+        if name == "itertools.starmap" and n == 2 and not kw and isinstance(pos[1], tuple) and all(isinstance(x, tuple) for x in pos[1]):
+            return tuple(self.call_value(pos[0], list(x), {}, node) for x in pos[1])
         if name in W.records and "**" not in kw and not any(isinstance(x, Star) for x in pos):
             kind_, fields, dflt = W.records[name]
             vals = dict(zip(fields, pos))
@@ -2302,8 +2500,17 @@ class OP4Eval(AutoEvaluator):
                         return Unknown(f"field {f_} of the record {name} is not given")
                     vals[f_] = self.ev(dflt[f_])
             return NTup.make([vals[f_] for f_ in fields], fields) if kind_ == "tuple" else DictValue(vals)
-        if name == "map" and n == 2 and isinstance(pos[1], tuple) and not kw:
-            return tuple(self.call_value(pos[0], [x], {}, node) for x in pos[1])
+        if name == "map" and n >= 2 and all(isinstance(x, tuple) for x in pos[1:]) and not kw:
+            return tuple(self.call_value(pos[0], list(xs), {}, node) for xs in zip(*pos[1:]))
+        if name == "filter" and n == 2 and isinstance(pos[1], tuple) and not kw:
+            keep = []
+            for x in pos[1]:
+                r = self.truth(x if (is_rat(pos[0]) and sym_name(pos[0]) == "None") else self.call_value(pos[0], [x], {}, node))
+                if r is None:
+                    return Unknown("filter with an undecided predicate")
+                if r:
+                    keep.append(x)
+            return tuple(keep)
         if name == "divmod" and n == 2 and is_rat(pos[0]) and is_rat(pos[1]):
             q = self._intop(ast.FloorDiv(), pos[0], pos[1])
             r = self._intop(ast.Mod(), pos[0], pos[1])
@@ -2356,6 +2563,11 @@ class OP4Eval(AutoEvaluator):
             if is_unknown(by):
                 return by
             return unpack_items([(code, pos[2])], by)
+        if name in ("sum", "math.fsum") and 1 <= n <= 2 and not kw and isinstance(pos[0], tuple) and all(is_rat(x) for x in pos[0]) and all(is_rat(x) for x in pos[1:]):
+            tot = pos[1] if n == 2 else F.const(0)          # sum of a literal table: the terms added up
+            for x in pos[0]:
+                tot = self.binop_values(ast.Add(), tot, x, node)
+            return tot
         if name in ("sum", "np.sum") and n >= 1 and is_rat(pos[0]):
             return F.fn("call:sum", pos[0])
         if name == "np.nonzero" and n == 1 and is_rat(pos[0]):
@@ -2786,8 +2998,8 @@ class OP4Eval(AutoEvaluator):
             env = {}
             for k in set(a["env"]) | set(b["env"]):
                 va, vb = a["env"].get(k), b["env"].get(k)
-                if same_value(va, vb):
-                    env[k] = vb
+                if va is vb or same_value(va, vb):
+                    env[k] = vb          # (an Unknown neither arm touched keeps its own reason)
                 else:
                     phi = self._phi(tv, va, vb)
                     env[k] = phi if phi is not None else Unknown(why)
